@@ -221,7 +221,7 @@ pub fn adapt_io(sim: &Sim, id: Id, fd: FdSpec, blocking: bool) {
             // the loop must be as if the call had not been made
             let after = h.verif_stats();
             if after.occupied_slots != before.occupied_slots {
-                sim.violate("stats.occupied_slots", vec!["leak".into(), "failed_adapt_io".into()], format!("a failed adapt_io left {} more occupied slot(s) behind", after.occupied_slots as i64 - before.occupied_slots as i64));
+                sim.violate_props("stats.occupied_slots", &["C17"], vec!["leak".into(), "failed_adapt_io".into()], format!("a failed adapt_io left {} more occupied slot(s) behind", after.occupied_slots as i64 - before.occupied_slots as i64));
                 return;
             }
             if !is_dup && os::is_nonblocking(raw) != was_nb {
@@ -250,7 +250,7 @@ fn after_release(sim: &Sim, id: Id, how: &'static str) {
         return;
     }
     if os::epoll_table(epfd).iter().any(|e| e.tfd == raw && e.data != u64::MAX) {
-        sim.violate("table.mismatch", vec!["stale_entry".into(), "adapter".into(), how.into()], format!("adapter {}: after {} its fd is still registered with the poller", id, how));
+        sim.violate_props("table.mismatch", &["C17"], vec!["stale_entry".into(), "adapter".into(), how.into()], format!("adapter {}: after {} its fd is still registered with the poller", id, how));
         return;
     }
     sim.rule_ok(&["C17", "C16"], 172);
@@ -337,6 +337,7 @@ struct IoFut {
     moved: u64,
     then: u8,
     awaited: bool,
+    stalled: u32,
     _g: DropCtr,
 }
 
@@ -423,9 +424,24 @@ impl Future for IoFut {
                     Pin::new(&mut f).poll(cx).is_ready()
                 };
                 if !ready {
+                    // woken by the adapter, fd ready per poll(2), and still told to wait: fine
+                    // once (readiness is recorded by the next event), not again and again
+                    let st = sim.st.borrow();
+                    let rev = st.adapters.get(&this.aid).map(|m| os::poll_revents(m.own.0.as_raw_fd())).unwrap_or(0);
+                    let was_woken = st.io_tasks.get(&this.task).map(|t| t.woken).unwrap_or(false);
+                    drop(st);
+                    let fd_ready = if this.kind == 2 { rev & (os::PIN | os::PHUP | os::PERR) != 0 } else { rev & (os::POUT | os::PHUP | os::PERR) != 0 };
+                    if fd_ready && was_woken {
+                        this.stalled += 1;
+                        if this.stalled >= 3 {
+                            sim.violate("io.no_progress", vec![], format!("task {} was woken {} times for adapter {} whose fd is ready, but readable()/writable() keeps returning Pending", this.task, this.stalled, this.aid));
+                            return Poll::Pending;
+                        }
+                    }
                     set_waiting(&sim, this.task, true);
                     return Poll::Pending;
                 }
+                this.stalled = 0;
                 this.awaited = true;
             }
             let res = if reading {
@@ -462,6 +478,7 @@ impl Future for IoFut {
                     set_waiting(&sim, this.task, true);
                     return Poll::Pending;
                 }
+                Poll::Ready(Ok(n)) if n > 0 && { this.stalled = 0; false } => unreachable!(),
                 Poll::Ready(Err(e)) => {
                     sim.trace(|| format!("    io task {} ends on error {}", this.task, e));
                     sim.probe("io_task_error");
@@ -578,7 +595,7 @@ pub fn adapter_task(sim: &Sim, exec: Id, task: Id, aid: Id, kind: u8, total: u32
         m.adapter.take()
     };
     let ctr = Rc::new(Cell::new(0));
-    let fut = IoFut { task, aid, adapter, kind, total: total as u64, chunk: chunk as usize, moved: 0, then, awaited: false, _g: DropCtr(ctr.clone()) };
+    let fut = IoFut { task, aid, adapter, kind, total: total as u64, chunk: chunk as usize, moved: 0, then, awaited: false, stalled: 0, _g: DropCtr(ctr.clone()) };
     crate::exec::register_task(sim, exec, task, ctr);
     sim.st.borrow_mut().io_tasks.insert(task, IoTaskM { adapter: aid, kind, waiting: false, woken: false, starved: 0, ready_at_wait: false, polls_at_wait: 0 });
     let Some(r) = guarded(sim, "schedule", || sched.schedule(fut)) else { return };
